@@ -244,9 +244,102 @@ func execOp(re *regexp2.Regexp, op *Op, ctx *opCtx) (out string) {
 			return sb.String()
 		}, -1, op.N)
 		return orErr(fmt.Sprintf("%q", r), err)
-	case OpSplit:
-		r, err := re.Split(in, op.N)
+	case OpReplaceFuncReentrant:
+		// the evaluator uses the same Regexp while the outer call is in progress: the outer call's
+		// interpreter state, buffers and match must not be what the inner calls get
+		calls := 0
+		var innerErr error // the first error of an inner call decides the result (a timeout under an adversarial schedule is legitimate)
+		r, err := re.ReplaceFunc(in, func(m regexp2.Match) string {
+			var sb strings.Builder
+			sb.WriteString("<")
+			canonOne(&sb, &m)
+			if calls++; calls <= 6 && innerErr == nil {
+				inner, e := re.FindStringMatch(m.String() + op.In2.Text())
+				sb.WriteString("/")
+				if e != nil {
+					innerErr = e
+					return ""
+				} else if inner != nil {
+					canonOne(&sb, inner)
+				}
+				rr, e := re.Replace(op.In2.Text()+m.String(), op.Repl, -1, 2)
+				if e != nil {
+					innerErr = e
+					return ""
+				}
+				sb.WriteString("/")
+				sb.WriteString(fmt.Sprintf("%q", rr))
+				sb.WriteString("/")
+				canonOne(&sb, &m) // the outer match again, after the inner calls
+			}
+			sb.WriteString(">")
+			return sb.String()
+		}, -1, op.N)
+		if innerErr != nil {
+			return errClass(innerErr)
+		}
 		return orErr(fmt.Sprintf("%q", r), err)
+	case OpWalkMixed:
+		// what belongs to the walk (text, position, "previous match was empty") must live in the Match,
+		// not where the calls in between can change it
+		in2 := op.In2.Text()
+		m, err := re.FindStringMatch(in)
+		if op.N > 0 {
+			m, err = re.FindRunesMatch([]rune(in))
+		}
+		var sb strings.Builder
+		for k := 0; k < maxWalk; k++ {
+			if err != nil {
+				sb.WriteString(errClass(err))
+				break
+			}
+			if m == nil {
+				sb.WriteString("|nil")
+				break
+			}
+			canonOne(&sb, m)
+			sb.WriteString("|")
+			var ib strings.Builder
+			if k < 8 {
+				switch (k + op.StartAt) % 4 {
+				case 0:
+					var b bool
+					b, err = re.MatchString(in2)
+					ib.WriteString(fmt.Sprint(b))
+				case 1:
+					var o *regexp2.Match
+					o, err = re.FindRunesMatch([]rune(in2))
+					if err == nil && o != nil {
+						canonOne(&ib, o)
+						if o, err = re.FindNextMatch(o); err == nil && o != nil {
+							canonOne(&ib, o)
+						}
+					}
+				case 2:
+					var rr string
+					rr, err = re.Replace(in2, op.Repl, -1, 1+k%2)
+					ib.WriteString(fmt.Sprintf("%q", rr))
+				default:
+					if o, e := re.FindStringMatchStartingAt(in2, len(in2)/2); e == nil && o != nil {
+						canonOne(&ib, o)
+					} else if e != nil && errClass(e) == "TIMEOUT" {
+						err = e
+					} else if e != nil {
+						ib.WriteString(errClass(e))
+					}
+				}
+				if err != nil {
+					// the first error of a call in between ends the walk, so that an aborted walk is a prefix of the full one
+					sb.WriteString(errClass(err))
+					break
+				}
+				sb.WriteString(ib.String())
+				sb.WriteString("|")
+			}
+			ctx.callStarts()
+			m, err = re.FindNextMatch(m)
+		}
+		return sb.String()
 	case OpWalk2:
 		in2 := op.In2.Text()
 		m1, e1 := re.FindStringMatch(in)
